@@ -152,6 +152,109 @@ theorem canViewC_fst (env : Env) (c : Cache) (h : CacheInv c) (u : User) (x : Ta
 theorem canViewC_inv (env : Env) (c : Cache) (h : CacheInv c) (u : User) (x : Target) :
     CacheInv (canViewC env c u x).2 := (canViewC_of_inv env c h u x).2
 
+/-! ### the thread-local caches: within one session they hold what the getters answer in THAT session -/
+
+private theorem lookup_mem' {α β : Type} [BEq α] [LawfulBEq α] (k : α) (v : β) (l : List (α × β)) (h : l.lookup k = some v) :
+    (k, v) ∈ l := by
+  induction l with
+  | nil => simp [List.lookup] at h
+  | cons p r ih =>
+    obtain ⟨a, b⟩ := p
+    simp only [List.lookup] at h
+    cases hab : (k == a)
+    · simp only [hab] at h; exact List.mem_cons_of_mem _ (ih h)
+    · simp only [hab, Option.some.injEq] at h
+      have : k = a := eq_of_beq hab
+      subst this; subst h; exact List.mem_cons_self
+
+def LInv (env : Env) (l : Local) : Prop :=
+  (∀ kv ∈ l.groups, kv.2 = "anybody" :: env.groupsOf kv.1) ∧
+  (∀ kv ∈ l.roles, kv.2 = (if env.userObj kv.1.1 = some kv.1.2 then ["self"] else []) ++ env.rolesOf kv.1.1 kv.1.2)
+
+theorem lInv_empty (env : Env) (l : Local) (hg : l.groups = []) (hr : l.roles = []) : LInv env l := by
+  constructor
+  · intro kv h; rw [hg] at h; cases h
+  · intro kv h; rw [hr] at h; cases h
+
+theorem getUserGroupsL_inv (env : Env) (l : Local) (h : LInv env l) (u : User) :
+    (getUserGroupsL env l u).1 = getUserGroups env u ∧ LInv env (getUserGroupsL env l u).2 := by
+  cases u with
+  | none => exact ⟨rfl, h⟩
+  | some u =>
+    cases hl : List.lookup u l.groups with
+    | some r =>
+      have := h.1 _ (lookup_mem' u r l.groups hl)
+      simp only [getUserGroupsL, hl]
+      exact ⟨this, h⟩
+    | none =>
+      simp only [getUserGroupsL, hl]
+      refine ⟨rfl, ?_, h.2⟩
+      intro kv hkv
+      rcases List.mem_cons.mp hkv with rfl | h'
+      · rfl
+      · exact h.1 kv h'
+
+theorem getUserRolesL_inv (env : Env) (l : Local) (h : LInv env l) (u : User) (o : Obj) :
+    (getUserRolesL env l u o).1 = getUserRoles env u o ∧ LInv env (getUserRolesL env l u o).2 := by
+  cases u with
+  | none => exact ⟨rfl, h⟩
+  | some u =>
+    cases hl : List.lookup (u, o) l.roles with
+    | some r =>
+      have := h.2 _ (lookup_mem' (u, o) r l.roles hl)
+      simp only [getUserRolesL, hl]
+      exact ⟨this, h⟩
+    | none =>
+      simp only [getUserRolesL, hl]
+      refine ⟨rfl, h.1, ?_⟩
+      intro kv hkv
+      rcases List.mem_cons.mp hkv with rfl | h'
+      · rfl
+      · exact h.2 kv h'
+
+theorem hasPermS_inv (env : Env) (s : Sess) (hc : CacheInv s.perm) (hl : LInv env s.loc) (u : User) (p : String) (x : Target) :
+    (hasPermS env s u p x).1 = hasPerm env u p x ∧ CacheInv (hasPermS env s u p x).2.perm ∧
+      LInv env (hasPermS env s u p x).2.loc := by
+  rw [hasPerm_eq]
+  unfold hasPermS hasPerm0
+  simp only [cache_miss s.perm hc]
+  cases x.hidden
+  · simp only [Bool.false_eq_true, if_false]
+    cases hempty : (accessRules env.rules x.entityOf p).isEmpty
+    · simp only [Bool.false_eq_true, if_false]
+      obtain ⟨g1, g2⟩ := getUserGroupsL_inv env s.loc hl u
+      generalize getUserGroupsL env s.loc u = gr at g1 g2
+      obtain ⟨ug, l1⟩ := gr
+      simp only at g1 g2
+      subst g1
+      cases x with
+      | entity e => exact ⟨rfl, cacheInv_set _ hc u p p _, g2⟩
+      | attr a => exact ⟨rfl, cacheInv_set _ hc u p p _, g2⟩
+      | obj o =>
+        dsimp only
+        obtain ⟨r1, r2⟩ := getUserRolesL_inv env l1 g2 u o
+        generalize getUserRolesL env l1 u o = rr at r1 r2
+        obtain ⟨ur, l2⟩ := rr
+        simp only at r1 r2
+        subst r1
+        exact ⟨rfl, cacheInv_set _ hc u p p _, r2⟩
+    · simp only [if_true]
+      exact ⟨trivial, hc, hl⟩
+  · simp only [if_true]
+    exact ⟨trivial, hc, hl⟩
+
+theorem runSessionCalls_inv (env : Env) (calls : List (User × String × Target)) :
+    ∀ s : Sess, CacheInv s.perm → LInv env s.loc →
+      (runSessionCalls env s calls).1 = calls.map (fun q => hasPerm env q.1 q.2.1 q.2.2) := by
+  induction calls with
+  | nil => intro s _ _; rfl
+  | cons q rest ih =>
+    intro s hc hl
+    obtain ⟨u, p, x⟩ := q
+    obtain ⟨h1, h2, h3⟩ := hasPermS_inv env s hc hl u p x
+    simp only [runSessionCalls, List.map_cons]
+    rw [ih _ h2 h3, h1]
+
 /-! ### `subset`, `contains` as propositions -/
 
 theorem subset_iff (a b : List String) : subset a b = true ↔ ∀ x ∈ a, x ∈ b := by
